@@ -78,6 +78,8 @@ def oracle(P, content0, content1, ecc1, res, recorded):
     if res["rc"].startswith("exception"):
         errs.append("correction raised: %s" % res["rc"])
         return errs
+    if "could not repair block" in res["text"] and res["rc"] == "0":
+        errs.append("a block was reported unrepairable but the run exited 0")
     if out is None:
         return errs
     if len(out) != len(content1):
@@ -136,8 +138,6 @@ def oracle(P, content0, content1, ecc1, res, recorded):
         t += len(chunk)
     if out[covered:] != content1[covered:]:
         errs.append("bytes after the last processed block were not copied verbatim")
-    if "could not repair block" in res["text"] and res["rc"] == "0":
-        errs.append("a block was reported unrepairable but the run exited 0")
     return errs
 
 
@@ -158,6 +158,8 @@ def gen_scenario(rng, tier, erasure_edge=False):
     elif rng.random() < 0.1:
         P.erasures, P.only_erasures = False, True       # --only_erasures alone
     if erasure_edge:
+        if rng.random() < 0.6:
+            P.tool = "whole"       # per-call k differs from the constructor's only in the whole-file tool
         P.algo = rng.choice([4, 4, 1, 2, 3])
         if P.algo in (1, 2):
             P.mbs = min(P.mbs, 60)
@@ -179,6 +181,17 @@ def run(oc, tier, seed, model_available, escalate):
     lines, impl = [], []
     for i in range(n):
         P, content0 = gen_scenario(rng, tier, erasure_edge=(i % 5 == 1 or i % 10 == 4))
+        bailout = (i % 10 == 7)
+        if bailout:
+            # directed class: more than ten consecutive blocks beyond repair from the very start of the file (the tools then give the file up):
+            # the run must still exit non-zero and must not write anything but the input bytes
+            P.mbs = min(P.mbs, 50)
+            P.erasures = P.only_erasures = False
+            if not P.well_formed():
+                P = eu.Params(tool=P.tool, algo=rng.choice([3, 4]), mbs=20, hash=P.hash)
+            k1_ = P.k_of_rate(P.r1)
+            P.size = max(P.size, 13 * k1_)
+            content0 = bytes(rng.randrange(256) for _ in range(P.size + rng.choice([0, 5, 3 * k1_])))
         name = rng.choice(["f.bin", "sub/g.dat"])
         root = os.path.join(d, "gen")
         import shutil
@@ -197,9 +210,16 @@ def run(oc, tier, seed, model_available, escalate):
         fk = rng.choice(["none", "few", "many", "burst", "zeros", "all", "few", "burst"])
         tk = rng.choice(["none", "none", "few", "many", "burst", "zeros", "truncate", "all"])
         content1 = bytes(damage_bytes(rng, content0, fk))
+        if bailout:
+            fk, tk = "start-burst", "none"
+            k1_ = P.k_of_rate(P.r1)
+            nbad = rng.randint(11, 13) * k1_
+            content1 = bytes((x ^ rng.randrange(1, 256)) for x in content0[:nbad]) + content0[nbad:]
         track = ecc0[f["track"][0]:]
         tl, _tot = es.track_layout(P, len(content0))
-        if it_directed(i) and len(tl) >= 2 and all(pl >= 2 for (_b, _h, _p, pl) in tl):
+        if bailout:
+            pass
+        elif it_directed(i) and len(tl) >= 2 and all(pl >= 2 for (_b, _h, _p, pl) in tl):
             # directed class: the stored parity of an INTACT block (hash intact too) is replaced by the valid parity of a slightly different
             # block, so that block+parity decodes to that other block; another block of the file is damaged so that the rebuild pass runs.
             # In the default checking mode the hash-matching block must not be altered.
@@ -246,7 +266,7 @@ def run(oc, tier, seed, model_available, escalate):
             track = track[:rng.randint(0, len(track))]
         else:
             track = bytes(damage_bytes(rng, track, tk))
-        sizechg = rng.choice(["no", "no", "no", "grow", "shrink"]) if tk not in ("erasures_beyond_bound", "parity_swap") else "no"
+        sizechg = rng.choice(["no", "no", "no", "grow", "shrink"]) if (tk not in ("erasures_beyond_bound", "parity_swap") and not bailout) else "no"
         if sizechg == "grow":
             content1 += bytes(rng.randrange(256) for _ in range(rng.choice([1, 20, 300])))
         elif sizechg == "shrink" and content1:
